@@ -414,6 +414,60 @@ pub fn spaces(tier: Tier) -> Vec<Space> {
             }
         }));
     }
+    // 6b. key objects obtained through every constructor: private key from bytes / lower hex / upper hex / WIF (both forms),
+    //     public key from the private key (two ways) / SEC1 bytes (both forms) / hex - signing equals the reference and
+    //     verification succeeds whatever the route by which the key objects were made
+    {
+        let kt = kt.clone();
+        v.push(Space::new("key-constructors", nk * 5 * 5 * 2, move |case, acc| {
+            let c = coords(case.idx, &[nk, 5, 5, 2]);
+            let (d, q) = (&kt.d[c[0] as usize], &kt.q[c[0] as usize]);
+            let hash = c[3];
+            let msg = b"constructors".to_vec();
+            let digest = digest_of(hash, &msg);
+            let d32 = secp::be32(d);
+            let skc = ["from_bytes", "from_hex(lower)", "from_hex(upper)", "from_wif(compressed)", "from_wif(uncompressed)"][c[1] as usize];
+            let pkc = ["PrivateKey::to_public_key", "PublicKey::from_private_key", "from_bytes(compressed)", "from_bytes(uncompressed)", "from_hex(uncompressed)"][c[2] as usize];
+            let input = json!({"key": hx(&d32), "private_key_constructor": skc, "public_key_constructor": pkc, "hash": hash});
+            acc.evaluations += 1;
+            acc.transitions += 3;
+            let lib = guard(|| {
+                let sk = match c[1] {
+                    0 => PrivateKey::from_bytes(&d32)?,
+                    1 => PrivateKey::from_hex(&hex::encode(d32))?,
+                    2 => PrivateKey::from_hex(&hex::encode(d32).to_uppercase())?,
+                    3 => PrivateKey::from_wif(&crate::refs::b58::wif_encode(&d32, true, 0x80))?,
+                    _ => PrivateKey::from_wif(&crate::refs::b58::wif_encode(&d32, false, 0x80))?,
+                };
+                let pk = match c[2] {
+                    0 => sk.to_public_key()?,
+                    1 => PublicKey::from_private_key(&sk),
+                    2 => PublicKey::from_bytes(&secp::encode_point(q, true))?,
+                    3 => PublicKey::from_bytes(&secp::encode_point(q, false))?,
+                    _ => PublicKey::from_hex(&hex::encode(secp::encode_point(q, false)))?,
+                };
+                let sig = ECDSA::sign_with_deterministic_k(&sk, &msg, signing_hash(hash), false)?;
+                let ok = ECDSA::verify_digest(&msg, &pk, &sig, signing_hash(hash))?;
+                Ok::<_, bsv::BSVErrors>((sig, ok))
+            });
+            match lib {
+                Ok(Ok((sig, ok))) => {
+                    acc.traces += 1;
+                    acc.nontrivial_structural += 1;
+                    acc.outcome(&[ok as u8, c[1] as u8]);
+                    let (r, s_) = rs_of(&sig);
+                    if Some((r, s_)) != reference_deterministic(d, &digest, false) {
+                        acc.violate("C05/sign_with_deterministic_k/kind=differs-from-rfc6979-reference/by=key-constructor", case.idx, case.json(input.clone()), format!("r={} s={}", hx(&sig.r()), hx(&sig.s())));
+                    }
+                    if !ok {
+                        acc.violate("C05/verify_digest/kind=rejects-valid-signature/by=key-constructor", case.idx, case.json(input), "the signer's own public key, obtained through this constructor, does not verify the signature");
+                    }
+                }
+                Ok(Err(e)) => acc.violate("C05/key-constructors/kind=spurious-error", case.idx, case.json(input), e.to_string()),
+                Err(p) => acc.violate(format!("C05/key-constructors/kind=panic@{}", panic_site(&p)), case.idx, case.json(input), p),
+            }
+        }));
+    }
     // 7. chosen s: boundary values of the INTERMEDIATE quantity s are reached by solving d = (s*k - z) / r for the private key
     //    (s = 2^j, (n-1)/2 - 2^j, (n-1)/2 - (2^j - 1) for every j, and the ends of the low-S range); the library must
     //    produce exactly (r, s) with that key and nonce and every library verifier must accept it
